@@ -548,9 +548,9 @@ class Engine(ValueOps, ExprOps, CallOps, StmtOps):
                     self.wf_used.add('%s: %s' % (fi.cls, r))
                     continue
                 st.oblige(self.spec_eval_bool(r), 'precondition of %s: %s' % (con.key, r), ln, kind='requires')
-            # the callee's result is named by its specification term; its definition is unfolded where the caller's own
-            # specification mentions it, not here (keeps the VCs of callers that do not care about the value small)
-            self.no_unfold = True
+            # a conditional contract's result is named by its specification term; its definition is unfolded where the
+            # caller's own specification mentions it, not here (keeps the VCs of callers that do not care about it small)
+            self.no_unfold = bool(con.under)
             under = mk_and(*[self.spec_eval_bool(u) for u in con.under]) if con.under else TRUE
             if con.under:
                 self.wf_used.add('%s: verified under [%s]; outside it only its type-level contract is assumed'
